@@ -269,7 +269,8 @@ class Food(UnitConversions):
                 self.kcals_units = self.kcals_units + " each month"
             if isinstance(self.fat, int):
                 self.fat = np.zeros(len(self.kcals))
-                self.fat_units = self.fat_units + " each month"
+                if "each month" not in self.fat_units:
+                    self.fat_units = self.fat_units + " each month"
             else:
                 self.fat = np.array(self.fat)
                 if "each month" not in self.fat_units:
@@ -277,7 +278,8 @@ class Food(UnitConversions):
 
             if isinstance(self.protein, int):
                 self.protein = np.zeros(len(self.kcals))
-                self.protein_units = self.protein_units + " each month"
+                if "each month" not in self.protein_units:
+                    self.protein_units = self.protein_units + " each month"
             else:
                 self.protein = np.array(self.protein)
                 if "each month" not in self.protein_units:
